@@ -15,7 +15,7 @@ class GrError(Exception):
 
 
 class Graph:
-    __slots__ = ("n", "adj", "width", "version", "pad", "kind")
+    __slots__ = ("n", "adj", "width", "version", "pad", "kind", "trailing")
 
     def __init__(self, n=0, width=0, version=1):
         self.n = n
@@ -24,6 +24,7 @@ class Graph:
         self.version = version
         self.pad = 0
         self.kind = ""
+        self.trailing = 0
 
     def m(self):
         return sum(len(a) for a in self.adj)
@@ -75,8 +76,9 @@ def encode_gr(g, version=None, v2pad=False):
     return b"".join(out)
 
 
-def decode_gr(b):
-    """Decode and fully validate; version 2 padding is decided by the file length."""
+def decode_gr(b, allow_trailing=False):
+    """Decode and fully validate; version 2 padding is decided by the file length. allow_trailing: a version-1 file
+    longer than its header says is decoded from its prefix (Graph.trailing = number of extra bytes)."""
     if len(b) < 32:
         raise GrError("file shorter than the 32-byte header (%d bytes)" % len(b))
     version, esz, n, m = struct.unpack_from("<QQQQ", b, 0)
@@ -98,6 +100,10 @@ def decode_gr(b):
             pad = want
         elif data == 0 and rest == 0:
             pad = 0
+        elif allow_trailing and rest > want + data:
+            g = decode_gr(b[:base + want + data])
+            g.trailing = rest - want - data
+            return g
         else:
             raise GrError("version 1: length %d does not match header (expected %d; n=%d m=%d esz=%d)" %
                           (len(b), base + want + data, n, m, esz))
